@@ -49,7 +49,7 @@ CHECKS = {
 
  "C01": ("crash", "fault_enumeration",
   "crash-point enumeration by real process death: the child process running the scripted history on the real handlers and SQLite store is SIGKILLed before its n-th file-mutating syscall for every n, then the production restart path runs and a reference model of acknowledged operations judges the database; for concurrent clients the child runs under the controlled scheduler and every (schedule, crash point) pair is taken",
-  "For each scripted history (ingress on a pull route and on a two-target fan-out route, Admin publish incl. a refused duplicate batch, pull dequeue / ack / nack / dead-letter / batch ack, explicit WAL checkpoints) every crash point is taken: SIGKILL before each of the K file-mutating syscalls (pwrite64, fsync, ftruncate, ...) SQLite issues, observed through a patched copy of the libc syscall trampoline. After each death the database is reopened through the production boot path and must open, pass integrity_check, have consistent counters, contain exactly one of the admissible outcomes (acknowledged operations exactly; the single unacknowledged operation applied, not applied, or a fan-out prefix; nothing nobody sent; no mixed fields) and offer every unsettled message again exactly once after lease expiry with identical payload and headers. Every history of length 2 (thorough: 4) over the operation alphabet is generated and crashed at every point as well. Concurrent part: 2-3 clients (producers on pull and fan-out routes, a publisher, a consumer that settles what it gets) run under the controlled scheduler inside the child; the schedules are enumerated first (quick: 1 preemption; thorough: unbounded under sleep-set reduction), then for every schedule and every crash point of it whose execution prefix was not already reached the child is replayed on that schedule and killed there; the admissible outcomes allow one in-flight operation per client.",
+  "For each scripted history (ingress on a pull route and on a two-target fan-out route, Admin publish incl. a refused duplicate batch, pull dequeue / ack / nack / dead-letter / batch ack, explicit WAL checkpoints) every crash point is taken: SIGKILL before each of the K file-mutating syscalls (pwrite64, fsync, ftruncate, ...) SQLite issues, observed through a patched copy of the libc syscall trampoline. After each death the database is reopened through the production boot path and must open, pass integrity_check, have consistent counters, contain exactly one of the admissible outcomes (acknowledged operations exactly; the single unacknowledged operation applied, not applied, or a fan-out prefix; nothing nobody sent; no mixed fields) and offer every unsettled message again exactly once after lease expiry with identical payload and headers. Every history of length 2 (thorough: 4) over the operation alphabet is generated and crashed at every point as well. Concurrent part: 2-3 clients (producers on pull and fan-out routes, a publisher, a consumer that settles what it gets) run under the controlled scheduler inside the child; the schedules are enumerated first (quick: at most 1 preemption; thorough: at most 2, three clients 1), then for every schedule and every crash point of it whose execution prefix was not already reached the child is replayed on that schedule and killed there; the admissible outcomes allow one in-flight operation per client.",
   "Process death only (page cache survives); power loss is not modelled. Acknowledgement = first WriteHeader/Write. Concurrent part: scheduling points are lock/atomic/connection operations (data-race freedom is the side condition of C03/C18's -race pass).",
   "DESIGN.md §4.3 §6 C01"),
  "C07": ("enum", "exploration",
